@@ -97,7 +97,7 @@ def match_known(known, prop, unit, desc):
 
 
 # ---------------------------------------------------------------- evidence
-def write_evidence(prop, tier, seed, coverage, assumptions, wall, violations, extra=None):
+def write_evidence(prop, tier, seed, coverage, assumptions, wall, violations, extra=None, partial=False):
     os.makedirs(EVIDENCE, exist_ok=True)
     ev = {
         "property_id": prop,
@@ -111,7 +111,8 @@ def write_evidence(prop, tier, seed, coverage, assumptions, wall, violations, ex
     }
     if extra:
         ev.update(extra)
-    path = os.path.join(EVIDENCE, f"{prop}.json")
+    # a debugging run restricted with --only never replaces the property's evidence file
+    path = os.path.join(EVIDENCE, f"{prop}.partial.json" if partial else f"{prop}.json")
     tmp = path + ".tmp"
     with open(tmp, "w") as f:
         json.dump(ev, f, indent=1)
